@@ -758,14 +758,42 @@ func flattenOne(fset *token.FileSet, f *ast.File, src []byte, ctr *int) ([]byte,
 			if len(x.Rhs) == 1 {
 				call, _ = x.Rhs[0].(*ast.CallExpr)
 				kind = "assign"
+				if call == nil {
+					allPure := true
+					for _, l := range x.Lhs {
+						if !pureExpr(l) {
+							allPure = false
+						}
+					}
+					if lc := wrappedLitCall(x.Rhs[0]); lc != nil && allPure {
+						call, kind = lc, "arg"
+					}
+				}
 			}
 		case *ast.ExprStmt:
 			call, _ = x.X.(*ast.CallExpr)
 			kind = "expr"
+		case *ast.DeclStmt:
+			// var x T = func() T {...}()
+			if gd, ok := x.Decl.(*ast.GenDecl); ok && gd.Tok == token.VAR && len(gd.Specs) == 1 {
+				if vs, ok := gd.Specs[0].(*ast.ValueSpec); ok && len(vs.Values) == 1 {
+					if c, okc := vs.Values[0].(*ast.CallExpr); okc {
+						if _, isLit := c.Fun.(*ast.FuncLit); isLit {
+							call, kind = c, "vardecl"
+						}
+					}
+				}
+			}
 		case *ast.ReturnStmt:
 			if len(x.Results) == 1 {
 				call, _ = x.Results[0].(*ast.CallExpr)
 				kind = "return"
+				if call == nil {
+					// return f().(T), return f().field, return *f() ...: the literal call is the first thing evaluated
+					if lc := wrappedLitCall(x.Results[0]); lc != nil {
+						call, kind = lc, "arg"
+					}
+				}
 			} else {
 				// return pure..., func() T {..}(), ...: the literal is the first thing evaluated that can have an effect
 				for _, r := range x.Results {
@@ -879,7 +907,12 @@ func flattenOne(fset *token.FileSet, f *ast.File, src []byte, ctr *int) ([]byte,
 		}
 		nres := len(rtypes)
 		if kind == "return" && named {
-			return false
+			// the literal's named results become local variables of a block; a bare return names them
+			for _, nm := range rnames {
+				if nm == "" || nm == "_" {
+					return false
+				}
+			}
 		}
 		if kind == "if" && nres != 1 {
 			return false
@@ -888,6 +921,9 @@ func flattenOne(fset *token.FileSet, f *ast.File, src []byte, ctr *int) ([]byte,
 			return false
 		}
 		if kind == "arg" && nres != 1 {
+			return false
+		}
+		if kind == "vardecl" && nres != len(s.(*ast.DeclStmt).Decl.(*ast.GenDecl).Specs[0].(*ast.ValueSpec).Names) {
 			return false
 		}
 		*ctr++
@@ -899,6 +935,17 @@ func flattenOne(fset *token.FileSet, f *ast.File, src []byte, ctr *int) ([]byte,
 		bodyEnd := fset.Position(lit.Body.Rbrace).Offset
 		body := append([]byte{}, src[bodyStart:bodyEnd]...)
 		usedGoto := false
+		if kind == "return" && named {
+			sort.Slice(rets, func(i, j int) bool { return rets[i].Pos() > rets[j].Pos() })
+			for _, r := range rets {
+				if len(r.Results) != 0 {
+					continue
+				}
+				a := fset.Position(r.Pos()).Offset - bodyStart
+				b := fset.Position(r.End()).Offset - bodyStart
+				body = append(append(append([]byte{}, body[:a]...), "return "+strings.Join(rnames, ", ")...), body[b:]...)
+			}
+		}
 		if kind != "return" {
 			sort.Slice(rets, func(i, j int) bool { return rets[i].Pos() > rets[j].Pos() })
 			lastStmt := ast.Stmt(nil)
@@ -966,7 +1013,7 @@ func flattenOne(fset *token.FileSet, f *ast.File, src []byte, ctr *int) ([]byte,
 			}
 		}
 		sb.WriteString("{\n")
-		if named && kind != "return" {
+		if named {
 			for i := 0; i < nres; i++ {
 				if rnames[i] != "" && rnames[i] != "_" {
 					fmt.Fprintf(&sb, "var %s %s\n_ = %s\n", rnames[i], rtypes[i], rnames[i])
@@ -1005,6 +1052,16 @@ func flattenOne(fset *token.FileSet, f *ast.File, src []byte, ctr *int) ([]byte,
 			sa := fset.Position(s.Pos()).Offset
 			sbEnd := fset.Position(s.End()).Offset
 			sb.WriteString(string(src[sa:ca]) + tmp(0) + string(src[cb:sbEnd]) + "\n")
+		case "vardecl":
+			var ts []string
+			for i := 0; i < nres; i++ {
+				ts = append(ts, tmp(i))
+			}
+			ca := fset.Position(call.Pos()).Offset
+			cb := fset.Position(call.End()).Offset
+			sa := fset.Position(s.Pos()).Offset
+			sbEnd := fset.Position(s.End()).Offset
+			sb.WriteString(string(src[sa:ca]) + strings.Join(ts, ", ") + string(src[cb:sbEnd]) + "\n")
 		case "ifinit":
 			ifs := s.(*ast.IfStmt)
 			var ts []string
@@ -1202,6 +1259,34 @@ func pureExpr(e ast.Expr) bool {
 	return false
 }
 
+// wrappedLitCall: e is a call of a parameterless function literal wrapped in
+// operations that evaluate nothing else (type assertion, parentheses, field
+// selection, dereference): the call can be evaluated in a statement of its own
+// just before.
+func wrappedLitCall(e ast.Expr) *ast.CallExpr {
+	depth := 0
+	for {
+		switch x := e.(type) {
+		case *ast.TypeAssertExpr:
+			e = x.X
+		case *ast.ParenExpr:
+			e = x.X
+		case *ast.SelectorExpr:
+			e = x.X
+		case *ast.StarExpr:
+			e = x.X
+		case *ast.CallExpr:
+			if _, isLit := x.Fun.(*ast.FuncLit); isLit && depth > 0 && len(x.Args) == 0 {
+				return x
+			}
+			return nil
+		default:
+			return nil
+		}
+		depth++
+	}
+}
+
 // sigString: the signature of fn without parameter names, package paths in
 // full (used to recognise a renamed function).
 func sigString(fn *types.Func) string {
@@ -1253,6 +1338,51 @@ func renamedFunctionsC(ref map[string]string, present map[string]string, refCall
 	for newKey, oldKey := range out {
 		if refCallers[oldKey] != presentCallers[newKey] {
 			delete(out, newKey)
+		}
+	}
+	// second tier: a method moved to another receiver type of the same package (name and receiver
+	// change, parameters and results do not), recognised by its non-empty set of static callers
+	pkgOf := func(key string) string {
+		if i := strings.Index(key, ".("); i >= 0 {
+			return key[:i]
+		}
+		if i := strings.LastIndex(key, "."); i >= 0 {
+			return key[:i]
+		}
+		return key
+	}
+	isMethod := func(key string) bool { return strings.Contains(key, ".(") }
+	matchedOld := map[string]bool{}
+	for _, o := range out {
+		matchedOld[o] = true
+	}
+	type grp struct{ olds, news []string }
+	groups := map[string]*grp{}
+	for k, sig := range ref {
+		if _, ok := present[k]; ok || matchedOld[k] || !isMethod(k) || refCallers[k] == "" {
+			continue
+		}
+		g := pkgOf(k) + "|" + sig + "|" + refCallers[k]
+		if groups[g] == nil {
+			groups[g] = &grp{}
+		}
+		groups[g].olds = append(groups[g].olds, k)
+	}
+	for k, sig := range present {
+		if _, ok := ref[k]; ok || !isMethod(k) || presentCallers[k] == "" {
+			continue
+		}
+		if _, done := out[k]; done {
+			continue
+		}
+		g := pkgOf(k) + "|" + sig + "|" + presentCallers[k]
+		if groups[g] != nil {
+			groups[g].news = append(groups[g].news, k)
+		}
+	}
+	for _, g := range groups {
+		if len(g.olds) == 1 && len(g.news) == 1 {
+			out[g.news[0]] = g.olds[0]
 		}
 	}
 	return out
